@@ -470,3 +470,31 @@ m('verifier-closes-before-hash-compare', 'R01e', 'utils/sha256verifier/sha256ver
 m('verifier-file-bypasses-hash', 'R01e', 'utils/sha256verifier/sha256verifier.go',
   '''		multiWriter:         io.MultiWriter(hash, writeCloser),''',
   '''		multiWriter:         io.MultiWriter(writeCloser, writeCloser),''')
+m('avail-slow-path-keeps-fileless-entry', 'R04h', 'cache/disk/disk.go',
+  '''					f, err = os.Open(blobPath)
+					if err != nil {
+						// We will log the error below, while not holding the lock.
+						c.lru.RemoveElement(listElem)
+					}''',
+  '''					f, err = os.Open(blobPath)''')
+m('avail-uses-file-after-failed-open', 'R14k', 'cache/disk/disk.go',
+  '''			if err != nil {
+				// Race condition, was the item purged after we released the lock?
+				log.Printf("Warning: expected %q to exist on disk (fast path: %t), undersized cache? Last reported error: %v", blobPath, fastPath, err)
+			} else if kind == cache.CAS {''',
+  '''			if err != nil {
+				// Race condition, was the item purged after we released the lock?
+				log.Printf("Warning: expected %q to exist on disk (fast path: %t), undersized cache? Last reported error: %v", blobPath, fastPath, err)
+			}
+			if kind == cache.CAS {''')
+m('get-uses-reopened-file-after-error', 'R14k', 'cache/disk/disk.go',
+  '''	rcf, err := os.Open(blobFile)
+	if err != nil {
+		return nil, -1, internalErr(err)
+	}
+''',
+  '''	rcf, err := os.Open(blobFile)
+	if err != nil {
+		log.Println(err)
+	}
+''')
